@@ -1,6 +1,520 @@
-//! C31 — not implemented yet.
+//! C31 — Every optimizer rule returns a well-formed plan.
+//!
+//! Generator: C03's statements (sqlgen's full grammar + the focused shapes of
+//! `c03_util` that make each production rule fire) over tables registered as
+//! memory (no statistics) and as Parquet (footer statistics).
+//! Oracle, for every production rule alone, every prefix of the production
+//! order and the production pipeline, with and without statistics, applied to
+//! the bound plan of the statement:
+//!  1. `optimize` returns Ok (when the bound plan itself executes, an error
+//!     here is an optimizer-internal failure of a valid query);
+//!  2. the output `schema()` has the same column names and types as the input
+//!     plan's;
+//!  3. every `Expr::Column` of every node resolves against that node's
+//!     children's schemas (or an enclosing query's, inside a subquery) — a
+//!     harness walker over the public `LogicalPlan` / `Expr` enums, using the
+//!     engine's own run-time lookup rule (exact qualified name, else bare
+//!     name, else `.name` suffix); only counted when the *bound* plan passes
+//!     the same walker;
+//!  4. the rewritten plan lowers and executes whenever the bound plan did.
 use super::Property;
+use crate::data::*;
+use crate::engine::*;
+use crate::runner::*;
+use proptest::strategy::BoxedStrategy;
+use query_engine::planner as qp;
+use query_engine::planner::LogicalPlan;
+use query_engine::ExecutionContext;
+use std::collections::{BTreeSet, HashMap, HashSet};
+
+#[path = "c03_util.rs"]
+mod util;
+use util::*;
+
+// ---------------------------------------------------------------------------
+// plan walker
+// ---------------------------------------------------------------------------
+
+#[derive(Clone, Copy, PartialEq, Eq, Debug)]
+pub enum Mode {
+    /// the qualifier, when present, must match the field's relation
+    Strict,
+    /// the engine's run-time rule (filter.rs find_column_index)
+    Lenient,
+}
+
+fn resolves(col: &qp::Column, schema: &qp::PlanSchema, mode: Mode) -> bool {
+    let fields = schema.fields();
+    if let Some(rel) = &col.relation {
+        if fields.iter().any(|f| f.relation.as_deref().map(|r| r.eq_ignore_ascii_case(rel)).unwrap_or(false) && f.name.eq_ignore_ascii_case(&col.name)) {
+            return true;
+        }
+        // a field literally named "rel.name"
+        let q = format!("{}.{}", rel, col.name);
+        if fields.iter().any(|f| f.relation.is_none() && f.name.eq_ignore_ascii_case(&q)) {
+            return true;
+        }
+        if mode == Mode::Strict {
+            // an unqualified field of that name (outputs of projections/aggregates
+            // carry no relation) is the documented fallback; a field of that name
+            // under ANOTHER relation is not
+            return fields.iter().any(|f| f.relation.is_none() && f.name.eq_ignore_ascii_case(&col.name));
+        }
+    }
+    let suffix = format!(".{}", col.name.to_lowercase());
+    fields.iter().any(|f| f.name.eq_ignore_ascii_case(&col.name) || f.qualified_name().to_lowercase().ends_with(&suffix))
+}
+
+pub struct Walker<'a> {
+    pub mode: Mode,
+    pub ctx: &'a ExecutionContext,
+    pub issues: Vec<String>,
+}
+
+impl<'a> Walker<'a> {
+    fn col(&mut self, c: &qp::Column, scopes: &[qp::PlanSchema], at: &str) {
+        if scopes.iter().any(|s| resolves(c, s, self.mode)) {
+            return;
+        }
+        self.issues.push(format!("{}: column {} does not resolve", at, c.qualified_name()));
+    }
+
+    fn expr(&mut self, e: &qp::Expr, scopes: &[qp::PlanSchema], at: &str) {
+        use qp::Expr as E;
+        match e {
+            E::Column(c) => self.col(c, scopes, at),
+            E::Literal(_) | E::Wildcard | E::QualifiedWildcard(_) => {}
+            E::BinaryExpr { left, right, .. } => {
+                self.expr(left, scopes, at);
+                self.expr(right, scopes, at);
+            }
+            E::UnaryExpr { expr, .. } | E::Cast { expr, .. } | E::Alias { expr, .. } => self.expr(expr, scopes, at),
+            E::Aggregate { args, .. } | E::ScalarFunc { args, .. } => {
+                for a in args {
+                    self.expr(a, scopes, at);
+                }
+            }
+            E::Case { operand, when_then, else_expr } => {
+                if let Some(o) = operand {
+                    self.expr(o, scopes, at);
+                }
+                for (w, t) in when_then {
+                    self.expr(w, scopes, at);
+                    self.expr(t, scopes, at);
+                }
+                if let Some(x) = else_expr {
+                    self.expr(x, scopes, at);
+                }
+            }
+            E::InList { expr, list, .. } => {
+                self.expr(expr, scopes, at);
+                for x in list {
+                    self.expr(x, scopes, at);
+                }
+            }
+            E::Between { expr, low, high, .. } => {
+                self.expr(expr, scopes, at);
+                self.expr(low, scopes, at);
+                self.expr(high, scopes, at);
+            }
+            E::ScalarSubquery(p) => self.plan(p, scopes),
+            E::Exists { subquery, .. } => self.plan(subquery, scopes),
+            E::InSubquery { expr, subquery, .. } => {
+                self.expr(expr, scopes, at);
+                self.plan(subquery, scopes);
+            }
+            E::WindowFunction(w) => self.window(w, scopes, at),
+        }
+    }
+
+    fn window(&mut self, w: &qp::WindowExpr, scopes: &[qp::PlanSchema], at: &str) {
+        for a in w.args.iter().chain(w.partition_by.iter()) {
+            self.expr(a, scopes, at);
+        }
+        for s in &w.order_by {
+            self.expr(&s.expr, scopes, at);
+        }
+    }
+
+    /// `outer`: schemas of enclosing query blocks (innermost first) that a
+    /// correlated reference may name.
+    pub fn plan(&mut self, p: &LogicalPlan, outer: &[qp::PlanSchema]) {
+        let with = |s: qp::PlanSchema| -> Vec<qp::PlanSchema> {
+            let mut v = vec![s];
+            v.extend(outer.iter().cloned());
+            v
+        };
+        match p {
+            LogicalPlan::Scan(n) => {
+                if let Some(f) = &n.filter {
+                    // a pushed filter may name table columns the projection dropped
+                    let mut fields: Vec<qp::SchemaField> = n.schema.fields().to_vec();
+                    if let Some(ts) = self.ctx.table_schema(&n.table_name) {
+                        for fld in ts.fields() {
+                            fields.push(qp::SchemaField::new(fld.name().clone(), fld.data_type().clone()));
+                        }
+                    }
+                    let sc = with(qp::PlanSchema::new(fields));
+                    self.expr(f, &sc, &format!("Scan({}).filter", n.table_name));
+                }
+            }
+            LogicalPlan::Filter(n) => {
+                let sc = with(n.input.schema());
+                self.expr(&n.predicate, &sc, "Filter");
+            }
+            LogicalPlan::Project(n) => {
+                let sc = with(n.input.schema());
+                for e in &n.exprs {
+                    self.expr(e, &sc, "Project");
+                }
+            }
+            LogicalPlan::Join(n) => {
+                let sc = with(n.left.schema().merge(&n.right.schema()));
+                for (l, r) in &n.on {
+                    self.expr(l, &sc, "Join.on");
+                    self.expr(r, &sc, "Join.on");
+                }
+                if let Some(f) = &n.filter {
+                    self.expr(f, &sc, "Join.filter");
+                }
+            }
+            LogicalPlan::Aggregate(n) => {
+                let sc = with(n.input.schema());
+                for e in n.group_by.iter().chain(n.aggregates.iter()) {
+                    self.expr(e, &sc, "Aggregate");
+                }
+            }
+            LogicalPlan::Window(n) => {
+                let sc = with(n.input.schema());
+                for (_, w) in &n.window_exprs {
+                    self.window(w, &sc, "Window");
+                }
+            }
+            LogicalPlan::Sort(n) => {
+                let sc = with(n.input.schema());
+                for s in &n.order_by {
+                    self.expr(&s.expr, &sc, "Sort");
+                }
+            }
+            LogicalPlan::Values(n) => {
+                let sc = with(qp::PlanSchema::empty());
+                for row in &n.values {
+                    for e in row {
+                        self.expr(e, &sc, "Values");
+                    }
+                }
+            }
+            LogicalPlan::DelimJoin(n) => {
+                let sc = with(n.left.schema().merge(&n.right.schema()));
+                for (l, r) in &n.on {
+                    self.expr(l, &sc, "DelimJoin.on");
+                    self.expr(r, &sc, "DelimJoin.on");
+                }
+                let lsc = with(n.left.schema());
+                for e in &n.delim_columns {
+                    self.expr(e, &lsc, "DelimJoin.delim_columns");
+                }
+            }
+            LogicalPlan::VectorSearch(n) => {
+                let sc = with(n.input.schema());
+                self.expr(&n.sort_key.expr, &sc, "VectorSearch.sort_key");
+            }
+            LogicalPlan::Limit(_) | LogicalPlan::Distinct(_) | LogicalPlan::Union(_) | LogicalPlan::SubqueryAlias(_) | LogicalPlan::EmptyRelation(_) | LogicalPlan::DelimGet(_) => {}
+        }
+        // the right input of a DelimJoin sees the left input's columns through DelimGet
+        match p {
+            LogicalPlan::DelimJoin(n) => {
+                self.plan(&n.left, outer);
+                let mut o = vec![n.left.schema()];
+                o.extend(outer.iter().cloned());
+                self.plan(&n.right, &o);
+            }
+            _ => {
+                for ch in p.children() {
+                    self.plan(ch, outer);
+                }
+            }
+        }
+    }
+}
+
+pub fn dangling(ctx: &ExecutionContext, p: &LogicalPlan, mode: Mode) -> Vec<String> {
+    let mut w = Walker { mode, ctx, issues: vec![] };
+    w.plan(p, &[]);
+    w.issues
+}
+
+pub fn schema_sig(p: &LogicalPlan) -> Vec<(String, String)> {
+    p.schema().fields().iter().map(|f| (f.name.clone(), format!("{:?}", f.data_type))).collect()
+}
+
+// ---------------------------------------------------------------------------
+// the check
+// ---------------------------------------------------------------------------
+
+/// Signatures of C31's open findings: (configuration name, failure kind, message) -> id
+fn classify(c: &OptCase, config: &str, kind: &str, msg: &str, out: Option<&LogicalPlan>) -> Option<&'static str> {
+    if kind == KIND_EXEC {
+        let p = out?;
+        let err = msg.lines().next().unwrap_or("");
+        // the rewrite turned a mixed-type comparison (evaluated with coercion by
+        // a Filter) into a hash-join key pair, whose typed fast paths break
+        let typed_path_failure = err.contains("runtime filter column is not Int64") || err.contains("index out of bounds");
+        if typed_path_failure && mixed_type_join_key(p).is_some() {
+            return Some("join-key-mixed-int-types");
+        }
+        // EagerAggregation's pre-aggregate / rewritten SUM is rejected by the dense aggregation path
+        let pt = plan_text(p);
+        if err.contains("dense agg:") && (pt.contains("__ea_") || pt.contains("__topk_key") || pt.contains("__pk")) {
+            return Some("dense-agg-rejects-rule-made-aggregate");
+        }
+        // outer / anti joins assemble their output (NULL-extension side, projected scans below)
+        // with another width or other names than the declared schema
+        if (err.contains("number of columns(") || err.contains("Column not found")) && ["join_type: Full", "join_type: Left", "join_type: Right", "join_type: Anti"].iter().any(|k| pt.contains(k)) && !pt.contains("Union(") {
+            return Some("full-join-over-projected-scan");
+        }
+        // a predicate FilterExec evaluates leniently fails with a type error at the
+        // site (scan filter / join condition) a rule moved it to
+        let type_error = err.contains("Type error:") || err.contains("arguments need to have the same data type") || err.contains("Cannot coerce") || err.contains("not supported for types") || err.contains("filter predicate must evaluate to boolean");
+        if type_error && relocated_predicate(p) {
+            return Some("relocated-predicate-type-error");
+        }
+        // the integer SUM x CAST(__ea_cnt AS Float64) defect of EagerAggregation (see C03)
+        if err.contains("expected Int64 but found Float64") && pt.contains("__ea_cnt") {
+            return Some("eager-aggregation-int-sum-float-count");
+        }
+        // UNION de-duplicates by the result's column names but a branch's batches carry the
+        // branch's own names (C30 set-operation-branch-column-names): when the rewritten first
+        // branch returns no batch at all, the lookup fails
+        if err.contains("Column not found: c") && pt.contains("Union(") {
+            return Some("union-branch-column-names");
+        }
+        // join operators hand dictionary-encoded strings to an operator whose declared schema says Utf8
+        if err.contains("expected Utf8 but found Dictionary(Int32, Utf8)") || err.contains("Unsupported type for scalar subquery: Dictionary(Int32, Utf8)") {
+            return Some("join-dictionary-string-schema-mismatch");
+        }
+    }
+    if kind == KIND_OPT && msg.contains("attempt to multiply with overflow") && c.sql_case.tables.iter().any(|t| t.rows.is_empty()) {
+        // JoinReorder: 10000 - log2(0 rows) as i32 * 500 (debug builds panic, release builds wrap)
+        return Some("join-reorder-empty-table-score-overflow");
+    }
+    if kind == KIND_STRICT {
+        if let Some(p) = out {
+            let pt = plan_text(p);
+            // GroupKeyReduction's restore projection keeps the original qualifier (t1.rc) above a
+            // decoration join that scans the base table unaliased
+            if pt.contains("__fd_") || pt.contains("__topk_key") {
+                return Some("group-key-reduction-decoration-qualifier");
+            }
+        }
+    }
+    if kind == KIND_DANGLING || kind == KIND_STRICT {
+        // decorrelation moved the subquery below a join but left a predicate that
+        // names only outer columns inside it
+        let correlated = c.sql_case.features.iter().any(|f| f == "correlated" || f == "correlated_ref");
+        let decorrelating = ["SubqueryDecorrelation", "FlattenDependentJoin"].iter().any(|r| config.ends_with(r)) || config.starts_with("prefix:") || config == "production";
+        if correlated && decorrelating {
+            return Some("decorrelation-leaves-outer-reference");
+        }
+    }
+    None
+}
+
+const KIND_OPT: &str = "optimize failed on a statement whose bound plan executes";
+const KIND_DANGLING: &str = "dangling column reference";
+const KIND_STRICT: &str = "column reference resolves only to a field of another relation";
+
+/// the plan evaluates some predicate inside a scan or a join
+fn relocated_predicate(p: &LogicalPlan) -> bool {
+    let mut hit = false;
+    for_each_node(p, &mut |n| match n {
+        LogicalPlan::Scan(s) if s.filter.is_some() => hit = true,
+        LogicalPlan::Join(j) if j.filter.is_some() || !j.on.is_empty() => hit = true,
+        _ => {}
+    });
+    hit
+}
+
+const KIND_EXEC: &str = "rewritten plan does not execute although the bound plan does";
+
+pub struct RulesWellFormed;
+
+impl RulesWellFormed {
+    fn side(&self, c: &OptCase, ctx: &ExecutionContext, with_stats: bool, sql: &str, obs: &mut Obs) -> Result<(), (Option<&'static str>, String)> {
+        let tag = if with_stats { "stats" } else { "nostats" };
+        let bound = match bind(ctx, sql) {
+            Ok(p) => p,
+            Err(e) => {
+                obs.label(format!("bind_error:{}", crate::sqlcheck::short_err(&e)));
+                return Ok(());
+            }
+        };
+        let stats = if with_stats { stats_of(ctx) } else { HashMap::new() };
+        if with_stats && stats.is_empty() {
+            obs.label("no_statistics_available");
+        }
+        let bound_text = plan_text(&bound);
+        let in_sig = schema_sig(&bound);
+        let strict_in = dangling(ctx, &bound, Mode::Strict);
+        let lenient_in = dangling(ctx, &bound, Mode::Lenient);
+        if !lenient_in.is_empty() {
+            obs.label("bound_plan_has_unresolved_columns");
+        } else if !strict_in.is_empty() {
+            obs.label("bound_plan_resolves_only_leniently");
+        }
+        let base = execute_logical(ctx, &bound);
+        obs.label(format!("{}:bound_{}", tag, if base.is_ok() { "executes" } else { "does_not_execute" }));
+
+        // harness copy of the production list == the engine's
+        let mut configs = configurations();
+        configs.push(("production".to_string(), production()));
+        let mut seen: HashSet<String> = HashSet::new();
+        seen.insert(bound_text.clone());
+        for (name, rules) in configs {
+            let fail = |kind: &str, msg: String, out: Option<&LogicalPlan>| -> Result<(), (Option<&'static str>, String)> {
+                let full = format!(
+                    "[{} / {}] {}: {}\n sql: {}\n bound plan:\n{}\n tables: {}",
+                    name,
+                    tag,
+                    kind,
+                    msg,
+                    sql,
+                    bound,
+                    crate::sqlcheck::fmt_tables(&c.sql_case.tables)
+                );
+                Err((classify(c, &name, kind, &msg, out), full))
+            };
+            let out = match optimize_with(rules, &stats, &bound) {
+                Ok(p) => p,
+                Err(e) => {
+                    obs.label(format!("optimize_error:{}", name.split(':').next().unwrap_or("")));
+                    if base.is_ok() {
+                        return fail(KIND_OPT, e, None);
+                    }
+                    continue;
+                }
+            };
+            if name == "production" {
+                match optimize_production(&stats, &bound) {
+                    Ok(p2) if plan_text(&p2) != plan_text(&out) => {
+                        return Err((None, format!("HARNESS: c03_util::production() differs from Optimizer::new() — update the copied rule list\n sql: {}", sql)));
+                    }
+                    _ => {}
+                }
+            }
+            let text = plan_text(&out);
+            if text == bound_text {
+                continue;
+            }
+            obs.nontrivial(true);
+            if name.starts_with("alone:") || name == "production" {
+                obs.label(format!("changed:{}", name));
+            }
+            if with_stats {
+                // did statistics matter for this configuration?
+                if let Some((_, rs)) = configurations().into_iter().chain(std::iter::once(("production".to_string(), production()))).find(|(n, _)| *n == name) {
+                    if let Ok(p0) = optimize_with(rs, &HashMap::new(), &bound) {
+                        if plan_text(&p0) != text {
+                            obs.label(format!("stats_rule_fired:{}", name.rsplit(':').next().unwrap_or("")));
+                        }
+                    }
+                }
+            }
+            if !seen.insert(text) {
+                continue;
+            }
+            if name.starts_with("prefix:") {
+                obs.label(format!("changed_in_pipeline:{}", name.rsplit(':').next().unwrap_or("")));
+            }
+            // 2. schema
+            let out_sig = schema_sig(&out);
+            if out_sig != in_sig {
+                return fail("output schema differs from the input plan's", format!("input {:?} output {:?}\n rewritten plan:\n{}", in_sig, out_sig, out), Some(&out));
+            }
+            // 3. column references
+            if lenient_in.is_empty() {
+                let d = dangling(ctx, &out, Mode::Lenient);
+                if !d.is_empty() {
+                    return fail(KIND_DANGLING, format!("{}\n rewritten plan:\n{}", d.join("; "), out), Some(&out));
+                }
+            }
+            if strict_in.is_empty() {
+                let d = dangling(ctx, &out, Mode::Strict);
+                if !d.is_empty() {
+                    obs.label(format!("strict_dangling:{}", name.rsplit(':').next().unwrap_or("")));
+                    return fail(KIND_STRICT, format!("{}\n rewritten plan:\n{}", d.join("; "), out), Some(&out));
+                }
+            }
+            // 4. executes whenever the bound plan did
+            if base.is_ok() {
+                if let Err(e) = execute_logical(ctx, &out) {
+                    if e.contains("Arithmetic overflow") || e.contains("attempt to multiply with overflow") || e.contains("attempt to add with overflow") {
+                        // integer overflow is engine-defined: a rewrite may evaluate an
+                        // expression on rows the bound plan filtered out first
+                        obs.label("rewritten_plan_overflows");
+                        continue;
+                    }
+                    return fail(KIND_EXEC, format!("{}\n rewritten plan:\n{}", e, out), Some(&out));
+                }
+            }
+        }
+        Ok(())
+    }
+}
+
+impl Check for RulesWellFormed {
+    type Case = OptCase;
+    fn name(&self) -> &'static str {
+        "rules_well_formed"
+    }
+    fn rule(&self) -> &'static str {
+        "the statement binds and at least one rule configuration (rule alone / prefix / production; with or without statistics) returned a plan different from the bound plan"
+    }
+    fn cases(&self, tier: Tier) -> u32 {
+        tier.pick(500, 50_000)
+    }
+    fn max_shrink_iters(&self) -> u32 {
+        150
+    }
+    fn strategy(&self, tier: Tier) -> BoxedStrategy<OptCase> {
+        opt_case_strategy(tier)
+    }
+    fn test(&self, c: &OptCase, obs: &mut Obs) -> Verdict {
+        let sql = c.sql_case.query.sql();
+        for f in &c.sql_case.features {
+            if f.starts_with("shape:") {
+                obs.label(f.clone());
+            }
+        }
+        obs.sample(serde_json::json!({"sql": sql}));
+        let mem = mem_context(c);
+        let dir = TempDir::new("c31");
+        let pq = match parquet_context(c, &dir) {
+            Ok(x) => x,
+            Err(e) => return Verdict::Discard(format!("parquet_registration:{}", crate::sqlcheck::short_err(&e))),
+        };
+        let _ = BTreeSet::<u8>::new();
+        for (ctx, with_stats) in [(&mem, false), (&pq, true)] {
+            if let Err((id, msg)) = self.side(c, ctx, with_stats, &sql, obs) {
+                return match id {
+                    Some(id) => Verdict::Known { id: id.to_string(), msg },
+                    None => Verdict::Fail(msg),
+                };
+            }
+        }
+        Verdict::Pass
+    }
+}
 
 pub fn property() -> Property {
-    Property { id: "C31", level: "exploration", assumptions: &[], checks: vec![] }
+    Property {
+        id: "C31",
+        level: "exploration",
+        assumptions: &[
+            "a column reference 'resolves' under the engine's own run-time lookup rule (exact qualified name, else bare name, else .name suffix), additionally never to a field that only exists under a different relation qualifier; counted only when the bound plan itself passes the same walker",
+            "'executes whenever the bound plan did' compares success only; answer equality is C03",
+            "the production rule list is copied from Optimizer::new() and compared with it on every case",
+        ],
+        checks: vec![Box::new(RulesWellFormed)],
+    }
 }
